@@ -189,6 +189,9 @@ func (g *gen) prim(hint byte) arg {
 			return arg{kind: 'b', b: g.r.Bool()}
 		}
 	case 'k':
+		if g.r.Intn(3) == 0 {
+			return keyPool[g.r.Intn(len(keyPool))]
+		}
 		switch g.r.Intn(5) {
 		case 0:
 			return arg{kind: 'b', b: g.r.Bool()}
@@ -301,7 +304,17 @@ func (g *gen) emitCollection(a *asm, depth int) {
 	}
 }
 
+// keyPool: map keys whose byte images collide across types (Integer 1, Boolean true, ByteString 01 …).
+var keyPool = []arg{
+	{kind: 'i', i: big.NewInt(0)}, {kind: 'i', i: big.NewInt(1)}, {kind: 'i', i: big.NewInt(-1)}, {kind: 'i', i: big.NewInt(255)}, {kind: 'i', i: big.NewInt(2)},
+	{kind: 'b', b: false}, {kind: 'b', b: true},
+	{kind: 's', bs: []byte{}}, {kind: 's', bs: []byte{0}}, {kind: 's', bs: []byte{1}}, {kind: 's', bs: []byte{0xff}}, {kind: 's', bs: []byte{0xff, 0}}, {kind: 's', bs: []byte{2}},
+}
+
 func (g *gen) keyPrim() arg {
+	if g.r.Intn(3) != 0 {
+		return keyPool[g.r.Intn(len(keyPool))]
+	}
 	switch g.r.Intn(4) {
 	case 0:
 		return arg{kind: 'b', b: g.r.Bool()}
